@@ -270,14 +270,15 @@ def opOk (s : State) (op : Op) : Bool :=
     | none => false
     | some po => po.kind.isPkg && registered s p
 
-/-- every operation of the history meets `opOk` in the state it is applied to, and does not raise -/
+/-- every operation of the history meets `opOk` in the state it is applied to. Nothing is asked of
+what follows an operation that raises: there is no such operation (`ModTable.run_ok`). -/
 def histOk : State → List Op → Bool
   | _, [] => true
   | s, op :: ops =>
     opOk s op &&
       match step s op with
       | .ok s' => histOk s' ops
-      | .error _ => false
+      | .error _ => true
 
 /-! ### the invariant as an executable predicate (printed by the driver, proved in PdProps.C02Mod) -/
 
